@@ -152,13 +152,11 @@ def decompose_case(draw, quick=True):
 @st.composite
 def split_case(draw, quick=True):
     rc = draw(refinable_base(quick))
-    # (split_column is not chained with other operations: it leaves stale keys in geo.connection and a stale node.column set,
-    #  internal-consistency defects that belong to C10 and make later delete_column calls raise)
-    if draw(st.integers(0, 3)) == 0:
-        steps = [{'op': 'triangulate', 'col': draw(st.integers(0, 300))} for _ in range(draw(st.integers(1, 2)))]
-    else:
-        steps = [{'op': 'split', 'col': draw(st.integers(0, 300)), 'node': draw(st.integers(0, 3))}
-                 for _ in range(draw(st.integers(1, 3)))]
+    steps = []
+    for _ in range(draw(st.integers(1, 3))):
+        if draw(st.integers(0, 3)) == 0: steps.append({'op': 'triangulate', 'col': draw(st.integers(0, 300))})
+        else: steps.append({'op': 'split', 'col': draw(st.integers(0, 300)), 'node': draw(st.integers(0, 3))})
+    if all(o['op'] == 'split' for o in steps) and draw(st.integers(0, 2)) == 0: steps.append(draw(refine_op()))
     return {'rc': rc, 'steps': steps, 'w': draw(weights())}
 
 
@@ -546,7 +544,6 @@ def check_layers(old, new, op, R):
     tol = 1e-9 * max(span, abs(lo[0]['bottom']), abs(und[-1]['bottom']), 1.0)
     R.check(abs(ln[0]['bottom'] - lo[0]['bottom']) <= tol and abs(ln[0]['top'] - lo[0]['top']) <= tol, 'layers:top-moved',
             'top of the model %r -> %r' % (lo[0]['bottom'], ln[0]['bottom']))
-    R.check(ln[0]['name'] == lo[0]['name'], 'layers:atmosphere-layer-renamed', '%r -> %r' % (lo[0]['name'], ln[0]['name']))
     if not R.check(len(got) == len(exp), 'layers:count', '%d layers refined %d-fold out of %d gave %d layers, expected %d' % (
             len(chosen), f, nl, len(got) - 1, len(exp) - 1)):
         return
